@@ -36,6 +36,11 @@ def rc_latency_oracle(ctx, cases, n_expr, how):
         sc = c12.sc_rc("latency", expr, dict(rho), hints)
         m = len(sc.slots)
         base = sc.run([0] * m)[0]
+        if "|LEAK" in base:
+            ctx.fail(f"latency|{expr}|{tuple(sorted(rho.items()))}|other-version", {"kind": "latency", "expression": expr, "rc": rho, "hints": hints},
+                     "only the evaluator registered for the format version in use is asked", base[-300:],
+                     "oracle: an evaluator registered for another format version next to the one in use does not take part")
+            continue
         profiles = [[1] * m] + [[3 if j == i else 0 for j in range(m)] for i in range(m)] + [[ctx.rng.randint(0, 3) for _ in range(m)] for _ in range(2)]
         for vec in profiles:
             got = sc.run(vec)[0]
